@@ -53,6 +53,10 @@ pub struct TxSpec {
     /// transaction is first materialised (no header dep while the chain is only the genesis block)
     #[serde(default)]
     pub hdep: Option<u64>,
+    /// absolute block-number time lock on the first input: (earliest commit position a submission
+    /// is judged at, i.e. tip + 1 + w_close when the transaction is first materialised) + delta
+    #[serde(default, skip_serializing_if = "Option::is_none")]
+    pub since: Option<i64>,
 }
 
 /// C04: where the probe transaction's first input comes from (resolved against the context at probe time)
@@ -244,6 +248,19 @@ pub fn generate(seed: u64, prop_name: &str) -> PoolScenario {
         pool.max_tx_pool_size = 180_000_000;
         pool.expiry_hours = 12;
     }
+    // C13 planted shape "a pooled transaction's time lock lies beyond the earliest commit position of a
+    // SHORTER but heavier branch": one run in five of those without small limits
+    let timelock_shape = prop == "C13" && !c13_full && cfg.max_block_bytes >= 100_000 && Rng::new(seed ^ 0xC13_71AE).chance(1, 5);
+    if timelock_shape {
+        let mut rp = Rng::new(seed ^ 0xC13_71AF);
+        cfg.genesis_epoch_len = *rp.pick(&[8u64, 10]);
+        cfg.permanent_difficulty = false;
+        cfg.epoch_duration_target = cfg.genesis_epoch_len * 8;
+        cfg.w_close = rp.range(1, 2);
+        cfg.w_far = 6;
+        pool.max_tx_pool_size = 180_000_000;
+        pool.expiry_hours = 12;
+    }
     // transaction DAG: chains, diamonds, conflicting spends, shared deps
     let ntx = r.urange(6, 40);
     let g = cfg.genesis_cells.len();
@@ -283,7 +300,7 @@ pub fn generate(seed: u64, prop_name: &str) -> PoolScenario {
             outs.push((t, o));
         }
         let hdep = if r.chance(1, 7) { Some(r.range(0, 3)) } else { None };
-        txs.push(TxSpec { inputs, outputs, fee, dep, salt: r.below(1 << 30), hdep });
+        txs.push(TxSpec { inputs, outputs, fee, dep, salt: r.below(1 << 30), hdep, since: None });
     }
     if c13_full {
         // volume for full templates: mostly independent transactions, each on a genesis cell of its own
@@ -305,8 +322,8 @@ pub fn generate(seed: u64, prop_name: &str) -> PoolScenario {
         let x = r.idx((ntx / 3).max(1));
         planted_shape = Some((x, txs.len(), txs.len() + 1));
         let g1 = InRef::G(r.idx(g));
-        txs.push(TxSpec { inputs: vec![g1], outputs: 1, fee: r.range(600, 3_000), dep: Some(InRef::T(x, 0)), salt: r.below(1 << 30), hdep: None });
-        txs.push(TxSpec { inputs: vec![InRef::T(x, 0)], outputs: r.urange(1, 2), fee: r.range(600, 3_000), dep: None, salt: r.below(1 << 30), hdep: None });
+        txs.push(TxSpec { inputs: vec![g1], outputs: 1, fee: r.range(600, 3_000), dep: Some(InRef::T(x, 0)), salt: r.below(1 << 30), hdep: None, since: None });
+        txs.push(TxSpec { inputs: vec![InRef::T(x, 0)], outputs: r.urange(1, 2), fee: r.range(600, 3_000), dep: None, salt: r.below(1 << 30), hdep: None, since: None });
     }
     // planted replacement shape: a (cheap) <- b (expensive child); r spends a's input and pays more than
     // a alone plus the increment; in half of the cases less than a and b together plus the increment
@@ -316,13 +333,26 @@ pub fn generate(seed: u64, prop_name: &str) -> PoolScenario {
         let fa = r.range(600, 1_500);
         let fb = r.range(8_000, 40_000);
         let a = txs.len();
-        txs.push(TxSpec { inputs: vec![InRef::G(gk)], outputs: 1, fee: fa, dep: None, salt: r.below(1 << 30), hdep: None });
-        txs.push(TxSpec { inputs: vec![InRef::T(a, 0)], outputs: 1, fee: fb, dep: None, salt: r.below(1 << 30), hdep: None });
+        txs.push(TxSpec { inputs: vec![InRef::G(gk)], outputs: 1, fee: fa, dep: None, salt: r.below(1 << 30), hdep: None, since: None });
+        txs.push(TxSpec { inputs: vec![InRef::T(a, 0)], outputs: 1, fee: fb, dep: None, salt: r.below(1 << 30), hdep: None, since: None });
         let fr = if r.chance(1, 2) { fa + fb / 2 + 1_500 } else { fa + fb + 3_000 + r.range(0, 5_000) };
-        txs.push(TxSpec { inputs: vec![InRef::G(gk)], outputs: 1, fee: fr, dep: None, salt: r.below(1 << 30), hdep: None });
+        txs.push(TxSpec { inputs: vec![InRef::G(gk)], outputs: 1, fee: fr, dep: None, salt: r.below(1 << 30), hdep: None, since: None });
         planted_rbf = Some((a, a + 1, a + 2));
     }
     let ntx = txs.len();
+    if prop == "C12" || prop == "C13" {
+        // time-locked transactions (a stream of their own: the other draws of a seed stay as they were):
+        // absolute block-number locks at and just below the position a submission is judged at, so
+        // that a reorganisation to a shorter chain makes a pooled transaction immature again
+        let mut rs = Rng::new(seed ^ 0x51CE_10C4);
+        if rs.chance(1, 2) {
+            for spec in txs.iter_mut() {
+                if rs.chance(1, 6) {
+                    spec.since = Some(*rs.pick(&[-3i64, -2, -1, 0, 0, 1]));
+                }
+            }
+        }
+    }
     // operations
     let nops = r.urange(20, 120);
     let mut ops = Vec::new();
@@ -497,6 +527,42 @@ pub fn generate(seed: u64, prop_name: &str) -> PoolScenario {
         }
         sk.push(POp::Quiesce);
         sk.push(POp::Mine);
+        sk.push(POp::Quiesce);
+        sk.extend(ops.drain(..).take(25));
+        ops = sk;
+    }
+    if timelock_shape {
+        // chain A: the genesis epoch mined quickly, one slow block ends it (A's next epoch gets half the
+        // difficulty), a few blocks into epoch 1; transaction 0, locked until the earliest position the
+        // pool can commit it at on A (or one block before), is admitted. Branch B leaves A two blocks
+        // before the epoch boundary, runs fast and outweighs A while still shorter: on B the lock lies
+        // beyond the position at which the pool's transaction can be committed first.
+        let l = cfg.genesis_epoch_len;
+        let f = l - 2;
+        let slow = cfg.epoch_duration_target * 1000 * 2 + 777;
+        let mut rp = Rng::new(seed ^ 0xC13_71B0);
+        txs[0].inputs = vec![InRef::G(0)];
+        txs[0].dep = None;
+        txs[0].hdep = None;
+        txs[0].fee = 2_000 + rp.range(0, 2_000);
+        txs[0].since = Some(*rp.pick(&[0i64, 0, -1]));
+        let mut sk = Vec::new();
+        sk.push(POp::Quiet { n: f, ts_delta: 5, propose: None, seed: rp.below(1 << 40) });
+        sk.push(POp::Quiet { n: 1, ts_delta: slow, propose: None, seed: rp.below(1 << 40) });
+        let n_epoch1 = cfg.w_far - 3 + rp.range(0, 2);
+        sk.push(POp::Quiet { n: n_epoch1, ts_delta: 3_000, propose: None, seed: rp.below(1 << 40) });
+        sk.push(POp::Quiesce);
+        sk.push(POp::Submit { t: 0, remote: false });
+        sk.push(POp::Quiesce);
+        sk.push(POp::Fork { back: 1 + n_epoch1, len: 0, seed: rp.below(1 << 40), quiet: true });
+        if rp.chance(1, 3) {
+            sk.push(POp::Take);
+            sk.push(POp::Poll { k: rp.idx(8) });
+        }
+        for _ in 0..4 {
+            sk.push(POp::Quiesce);
+            sk.push(POp::Mine);
+        }
         sk.push(POp::Quiesce);
         sk.extend(ops.drain(..).take(25));
         ops = sk;
@@ -886,7 +952,15 @@ impl PoolExec {
                 }
             };
             total += cap;
-            tb = tb.input(CellInput::new(op, 0));
+            let since = match (spec.since, total == cap) {
+                // first input only
+                (Some(d), true) => {
+                    let tipn = (self.w.st(self.tip_idx).chain.len() - 1) as i64;
+                    (tipn + 1 + self.w.cfg.w_close as i64 + d).max(1) as u64
+                }
+                _ => 0,
+            };
+            tb = tb.input(CellInput::new(op, since));
         }
         if let Some(InRef::T(tt, oo)) = &spec.dep {
             if *tt < t {
@@ -1495,6 +1569,9 @@ impl PoolExec {
         self.ev(&format!("mine n={} txs={} proposals={} uncles={} on_tip={} verdict={:?} model={:?}", view.number(), ntx, view.data().proposals().len(), view.data().uncles().len(), on_tip, verdict, model.as_ref().map(|_| ())));
         if ntx > 0 {
             self.res.probes.inc("template_commits_txs");
+        }
+        if view.transactions().iter().skip(1).any(|t| t.inputs().into_iter().any(|i| Into::<u64>::into(i.since()) != 0)) {
+            self.res.probes.inc("template_commits_time_locked_tx");
         }
         if !view.data().proposals().is_empty() {
             self.res.probes.inc("template_proposes_txs");
@@ -2349,6 +2426,20 @@ impl PoolExec {
         let st = self.w.st(ti).clone();
         self.ev(&format!("pool at rest: {} entries (pending {}, gap {}, proposed {}) at tip n={}", d.entries.len(), d.counts.0, d.counts.1, d.counts.2, st.chain.len() - 1));
         let pooled: BTreeMap<Byte32, &pv::EntryDump> = d.entries.iter().map(|e| (e.tx.hash(), e)).collect();
+        // time-locked transactions in the pool; after a reorganisation to a shorter chain the lock may
+        // lie beyond the earliest commit position again
+        for e in &d.entries {
+            for i in e.tx.inputs().into_iter() {
+                let sv: u64 = i.since().into();
+                if sv != 0 && sv >> 56 == 0 {
+                    self.res.probes.inc("pooled_time_locked_tx_at_rest");
+                    let tipn = (st.chain.len() - 1) as u64;
+                    if tipn + 1 + self.w.cfg.w_close < sv {
+                        self.res.probes.inc("pooled_time_locked_tx_immature_again_on_shorter_chain");
+                    }
+                }
+            }
+        }
         let mut spent: BTreeMap<OutPoint, Byte32> = BTreeMap::new();
         for e in &d.entries {
             let h = e.tx.hash();
